@@ -118,7 +118,7 @@ static std::vector<Op> buildAlphabet(const std::string& name, Limits& L, const s
         A.push_back(opColPoint("ok", 1, L)); A.push_back(opColAnalog("ok", 1, L));
         A.push_back(opReload());
     } else if (name == "loaded") {  // C05 / C06 / C07 / C10: every editing call on objects LOADED from every single-deviation generated file (roots below)
-        L.maxFrames = 4; L.maxPoints = 4; L.maxChans = 4; L.noColumnsOnGaps = true; L.documentedDevsOnly = true; L.noDuplicateDeclarations = true; L.noRateEditWithData = true;
+        L.maxFrames = 4; L.maxPoints = 4; L.maxChans = 4; L.noColumnsOnGaps = true; L.documentedDevsOnly = true; L.noDuplicateDeclarations = true; L.noRateEditWithData = true; L.integerRateRatioOnly = true;
         A.push_back(opPoint("NEWP", L)); A.push_back(opAnalog("newc", L));
         for (auto t : {"app", "0", "n+1"}) A.push_back(opFrame("ok", t, 1, L));
         for (auto d : {"pt_missing", "pt_renamed", "ch_extra"}) A.push_back(opFrame(d, "app", 0, L));
